@@ -52,6 +52,29 @@ Theorem C11_history_filter : forall (conv : atype -> pyval -> option pyval) (X :
 Proof. exact history_filter. Qed.
 Print Assumptions C11_history_filter.
 
+(* Every bound an accepted append stores is EXACTLY the minimum / maximum of the stored column (NULLs and
+   NaNs apart), filed under the field id the table schema gives the column -- not a shortened, rounded or
+   otherwise altered value; a column without ordinary values stores no bound. *)
+Theorem C11_history_bounds_exact : forall (conv : atype -> pyval -> option pyval) (ts : ischema) (es : list event) (f : dfile) (g : field),
+  NoDup (map fname (sfields ts)) -> NoDup (map fid (sfields ts)) ->
+  In f (current (run conv (init (Some ts)) es)) -> In g (sfields ts) -> bounds_skipped (ftype g) = false ->
+  match bounds_of (column (map vrow (df_rows f)) (fname g)) with
+  | Some (mn, mx) => lookup (fid g) (df_lo f) = Some mn /\ lookup (fid g) (df_hi f) = Some mx
+  | None => lookup (fid g) (df_lo f) = None /\ lookup (fid g) (df_hi f) = None
+  end.
+Proof. exact history_bounds_exact. Qed.
+Print Assumptions C11_history_bounds_exact.
+
+(* Hence the stored bounds enclose every ordinary value of their column in their file. *)
+Theorem C11_history_bounds_true : forall (conv : atype -> pyval -> option pyval) (ts : ischema) (es : list event) (f : dfile) (g : field) (lo hi : value),
+  NoDup (map fname (sfields ts)) -> NoDup (map fid (sfields ts)) -> conv_kinds conv ->
+  In f (current (run conv (init (Some ts)) es)) -> In g (sfields ts) ->
+  lookup (fid g) (df_lo f) = Some lo -> lookup (fid g) (df_hi f) = Some hi -> bounds_skipped (ftype g) = false ->
+  forall r, In r (df_rows f) -> ordinary (cell (vrow r) (fname g)) = true ->
+  vle lo (cell (vrow r) (fname g)) /\ vle (cell (vrow r) (fname g)) hi.
+Proof. exact history_bounds_true. Qed.
+Print Assumptions C11_history_bounds_true.
+
 (* A rejected append (no schema, divergent schema, invalid records, conversion error, failed commit)
    leaves the schema, the snapshot list with every snapshot's reachable data files, the data files
    present on storage, and the results of all scans unchanged.  Any table, with or without schema. *)
@@ -128,6 +151,8 @@ Example C11_nonvacuous :
   /\ outcomes ex_conv (init (Some ex_ts)) ex_history = [Accepted; RejSchema; RejSchema; RejRecords; RejCommit; Accepted]
   /\ full_scan (run ex_conv (init (Some ex_ts)) ex_history)
      = Some [ [(0, PV (VInt 7)); (1, PV (VFlt (Fin (1 # 2))))]; [(0, PV (VInt 11)); (1, PV VNull)] ]
+  /\ map (fun f => (df_lo f, df_hi f)) (current (run ex_conv (init (Some ex_ts)) ex_history))
+     = [ ([(1, VInt 7); (2, VFlt (Fin (1 # 2)))], [(1, VInt 7); (2, VFlt (Fin (1 # 2)))]); ([(1, VInt 11)], [(1, VInt 11)]) ]
   /\ w_store (run ex_conv (init (Some ex_ts)) ex_history) = [2; 0]
   /\ length (w_snaps (run ex_conv (init (Some ex_ts)) ex_history)) = 2%nat.
 Proof.
